@@ -30,6 +30,7 @@ const (
 	ErrMismatchParamLengthError = 51
 	ErrMostParamsError          = 52
 	ErrExactParamsError         = 53
+	ErrEvalNestTooDeep          = 54
 	// module error
 	ErrModuleNotFound           = 60
 	ErrImportSameModule         = 61
@@ -195,6 +196,15 @@ func ExactParamsError(exactParams int) *RuntimeError {
 }
 
 // ModuleNotFound -
+// EvalNestTooDeep - calls and expressions nested deeper than the evaluator follows
+func EvalNestTooDeep(maxDepth int) *RuntimeError {
+	return &RuntimeError{
+		Code:    ErrEvalNestTooDeep,
+		Message: fmt.Sprintf("调用与表达式的嵌套层数超过了 %d 层", maxDepth),
+		Extra:   maxDepth,
+	}
+}
+
 func ModuleNotFound(name string) *RuntimeError {
 	return &RuntimeError{
 		Code:    ErrModuleNotFound,
